@@ -17,7 +17,7 @@ CHECKS_FOR = [
     ("kernel/multi_aes/multicry", ["C01", "C04", "C15"]),
     ("kernel/multi_aes/aes/aesmode", ["C10", "C02"]),
     ("kernel/multi_aes/aes/aes.", ["C09", "C10"]),
-    ("kernel/cry.", ["C01", "C02", "C05", "C11", "C12", "C13", "C15", "C06"]),
+    ("kernel/cry.", ["C01", "C02", "C05", "C11", "C12", "C13", "C15", "C06", "C17"]),
     ("kernel/fheader", ["C02", "C08", "C05", "C11", "C13", "C18", "C06"]),
     ("kernel/hash/", ["C07", "C08"]),
     ("valget/base64/", ["C16"]),
